@@ -555,7 +555,9 @@ def judge(case, res):
         return (pre + 'error_free_sample_discarded', exp, obs,
                 '%d of %d error-free samples were discarded as outliers (kept: %s)' % (
                     res['n_matched'] - res['n_cleaned'], res['n_matched'], res['kept']))
-    if not res.get('success'):
+    if not res.get('success') and res.get('exact_ippe'):
+        # (unpatched runs: the property text asks for the right poses, which were returned; `success` False after a poor
+        #  initial estimate is not held against the code)
         return (pre + 'solver_reports_failure_on_right_answer', 'success', obs, '')
     return None
 
